@@ -175,7 +175,8 @@ theorem searchLoop_noFuel_nonpos (ops : BatOps α B) (hf : OpsNoFuel ops) (eps :
   · apply noFuel_bind _ _ (searchPass_noFuel ops hf _ _ _ _ _ _ _)
     intro x _
     obtain ⟨pl', pot⟩ := x
-    simp only [hstep, decide_true, Bool.or_true, if_true]
+    have hs : bp + step ≤ bp := by linarith
+    simp only [hs, decide_true, Bool.or_true, if_true]
     exact noFuel_ok _
   · exact noFuel_ok _
 
